@@ -847,6 +847,122 @@ fire("c11-adjoint-cat-slice-named-by-cat-dim", "C11", ADJOINT,
      "        part_slice = Slice(\n            part_name, start,", "        part_slice = Slice(\n            name, start,", "R11.5", "adjoint_cat")
 
 
+
+# ---- R16.8 / R16.9 / R16.10 and R17.10 (round 4)
+fire("c16-union-vs-union-by-member-set", "C16", TYPING,
+     "    if get_origin(subcls) is typing.Union:\n        return all(",
+     "    if get_origin(subcls) is typing.Union:\n        if get_origin(cls) is typing.Union:\n            return set(get_args(subcls)).issubset(get_args(cls))\n        return all(",
+     "R16.8", "deep_issubclass")
+fire("c16-tuple-components-contravariant", "C16", TYPING,
+     "    return len(cls_args) == len(subcls_args) and all(\n        deep_issubclass(a, b) for a, b in zip(subcls_args, cls_args)\n    )",
+     "    return len(cls_args) == len(subcls_args) and all(\n        deep_issubclass(b, a) for a, b in zip(subcls_args, cls_args)\n    )",
+     "R16.8", "_subclasscheck_tuple")
+fire("c16-frozenset-components-by-equality", "C16", TYPING,
+     "    return len(subcls_args) == len(cls_args) == 1 and all(\n        deep_issubclass(a, b) for a, b in zip(subcls_args, cls_args)\n    )",
+     "    return len(subcls_args) == len(cls_args) == 1 and subcls_args == cls_args",
+     "R16.8", "_subclasscheck_frozenset")
+fire("c16-variadic-compares-pattern-with-itself", "C16", TYPING,
+     "        return all(deep_issubclass(a, cls_args[0]) for a in subcls_args)",
+     "        return all(deep_issubclass(a, cls_args[0]) for a in cls_args[:-1])",
+     "R16.8", "_subclasscheck_tuple")
+silent("c16-s-recursive-call-via-loop", "C16", TYPING,
+       "        return all(deep_issubclass(a, cls_args[0]) for a in subcls_args)",
+       "        for a in subcls_args:\n            if not deep_issubclass(a, cls_args[0]):\n                return False\n        return True")
+silent("c16-s-args-unpacked-separately", "C16", TYPING,
+       "    cls_args, subcls_args = get_args(cls), get_args(subcls)\n\n    if not cls_args:  # cls is base Tuple",
+       "    cls_args = get_args(cls)\n    subcls_args = get_args(subcls)\n\n    if not cls_args:  # cls is base Tuple")
+V.append(dict(id="c16-params-never-canonicalised", prop="C16", kind="fire", expect_rule="R16.9", expect_in="__getitem__",
+              edits=[(TYPING, "        arg_types = tuple(map(_type_to_typing, arg_types))\n", ""),
+                     (TYPING, "            deep_issubclass(_type_to_typing(ps), _type_to_typing(pc))", "            deep_issubclass(ps, pc)")]))
+silent("c16-s-canonicalise-only-at-construction", "C16", TYPING,
+       "            deep_issubclass(_type_to_typing(ps), _type_to_typing(pc))", "            deep_issubclass(ps, pc)")
+silent("c16-s-canonicalise-only-at-comparison", "C16", TYPING,
+       "        arg_types = tuple(map(_type_to_typing, arg_types))\n", "")
+silent("c16-s-canonicalise-by-comprehension", "C16", TYPING,
+       "        arg_types = tuple(map(_type_to_typing, arg_types))\n", "        arg_types = tuple(_type_to_typing(t) for t in arg_types)\n")
+fire("c16-variadic-from-first-element", "C16", REGISTRY,
+     "Variadic[tuple(tp)] if isinstance(tp, list) else tp for tp in signature", "Variadic[tp[0]] if isinstance(tp, list) else tp for tp in signature", "R16.10", "add")
+fire("c16-signature-tail-dropped", "C16", REGISTRY,
+     "        signature = tuple(map(typing_wrap, signature))\n        super().add(signature, func)",
+     "        signature = tuple(map(typing_wrap, signature))\n        super().add(signature[:3], func)", "R16.10", "add")
+silent("c16-s-variadic-via-temp", "C16", REGISTRY,
+       "        signature = (\n            Variadic[tuple(tp)] if isinstance(tp, list) else tp for tp in signature\n        )\n",
+       "        signature = [Variadic[tuple(tp)] if isinstance(tp, list) else tp for tp in signature]\n")
+fire("c17-montecarlo-rule-hands-term-to-eager", "C17", "funsor/montecarlo.py",
+     "        return None  # cannot progress\n",
+     "        from funsor.interpretations import eager\n        return eager.interpret(Integrate, log_measure, integrand, reduced_vars)\n", "R17.10", "monte_carlo_integrate")
+fire("c17-moment-matching-rule-hands-term-to-lazy", "C17", "funsor/interpretations.py", "<<EOF>>",
+     "\n\n@moment_matching.register(object, object)\ndef _mm_probe(a, b):\n    return lazy.interpret(object, a, b)\n", "R17.10", "_mm_probe")
+silent("c17-s-rule-redispatches-within-own-layering", "C17", "funsor/interpretations.py", "<<EOF>>",
+       "\n\n@moment_matching.register(object, object)\ndef _mm_probe(a, b):\n    return eager.interpret(object, a, b)\n")
+silent("c17-s-rule-delegates-to-partial", "C17", "funsor/interpretations.py", "<<EOF>>",
+       "\n\n@moment_matching.register(object, object)\ndef _mm_probe(a, b):\n    return lazy_base.interpret(object, a, b)\n")
+
+
+# ---- round 4: R04.4-R04.7, R05.7/R05.8, R06.7-R06.9, R07.9, bound-method key, parametric return summaries (C20)
+GAUSS = "funsor/gaussian.py"
+fire("c04-fresh-subs-any", "C04", CNF, "    if all(name in arg.fresh for name, sub in subs):", "    if any(name in arg.fresh for name, sub in subs):", "R04.4", "do_fresh_subs")
+fire("c04-distribute-subs-all", "C04", CNF, "            if any(name in v.inputs for name, sub in subs)", "            if all(name in v.inputs for name, sub in subs)", "R04.4", "distribute_subs_contraction")
+silent("c04-s-fresh-subs-not-any-not-in", "C04", CNF, "    if all(name in arg.fresh for name, sub in subs):", "    if not any(name not in arg.fresh for name, sub in subs):")
+silent("c04-s-distribute-subs-inverted", "C04", CNF,
+       "            Subs(v, tuple((name, sub) for name, sub in subs if name in v.inputs))\n            if any(name in v.inputs for name, sub in subs)\n            else v",
+       "            v\n            if all(name not in v.inputs for name, sub in subs)\n            else Subs(v, tuple((name, sub) for name, sub in subs if name in v.inputs))")
+fire("c04-slice-tensor-branch-drops-start", "C04", TERMS,
+     "            data = self.slice.start + self.slice.step * index.data\n            return type(index)(data, index.inputs, self.output.dtype)",
+     "            data = self.slice.step * index.data\n            return type(index)(data, index.inputs, self.output.dtype)", "R04.5", "Slice.eager_subs")
+silent("c04-s-slice-tensor-branch-commuted", "C04", TERMS,
+       "            data = self.slice.start + self.slice.step * index.data\n            return type(index)(data, index.inputs, self.output.dtype)",
+       "            data = index.data * self.slice.step + self.slice.start\n            return type(index)(data, index.inputs, self.output.dtype)")
+fire("c04-affine-stage-without-clash-test", "C04", GAUSS,
+     "        if any(remaining_names.intersection(v.inputs) for k, v in subs if k in affine):", "        if False:", "R04.6", "_eager_subs_affine")
+fire("c04-var-stage-without-clash-test", "C04", GAUSS,
+     "        if len(inputs) != len(self.inputs):\n            raise ValueError(\"Variable substitution name conflict\")\n", "", "R04.6", "_eager_subs_var")
+fire("c04-affine-inputs-delete-insert-interleaved", "C04", GAUSS,
+     "        for old_k, (const, coeffs) in affine.items():\n            for new_k, (coeff, eqn) in coeffs.items():\n                new_shape",
+     "        for old_k, (const, coeffs) in affine.items():\n            new_real_inputs.pop(old_k, None)\n            for new_k, (coeff, eqn) in coeffs.items():\n                new_shape",
+     "R04.7", "_eager_subs_affine")
+fire("c05-independent-diag-var-conditionally-bound", "C05", TERMS,
+     "        bound = {bint_var: fn.inputs[bint_var], diag_var: fn.inputs[diag_var]}\n",
+     "        bound = {bint_var: fn.inputs[bint_var]}\n        if diag_var == reals_var:\n            bound[diag_var] = fn.inputs[diag_var]\n", "R05.7", "Independent.__init__")
+fire("c05-independent-bint-var-not-bound", "C05", TERMS,
+     "        bound = {bint_var: fn.inputs[bint_var], diag_var: fn.inputs[diag_var]}\n",
+     "        bound = {diag_var: fn.inputs[diag_var]}\n", None, "Independent.__init__")
+silent("c05-s-independent-bound-by-stores", "C05", TERMS,
+       "        bound = {bint_var: fn.inputs[bint_var], diag_var: fn.inputs[diag_var]}\n",
+       "        bound = {}\n        bound[bint_var] = fn.inputs[bint_var]\n        bound[diag_var] = fn.inputs[diag_var]\n")
+fire("c05-adjoint-subs-stale-arg", "C05", ADJOINT,
+     "        reduced_vars |= v.input_vars - relabeled_arg.input_vars", "        reduced_vars |= v.input_vars - arg.input_vars", "R05.8", "adjoint_subs")
+fire("c06-astype-uint8-size-two", "C06", DOMAINS,
+     '    elif op.defaults["dtype"] in ("bool"):', '    elif op.defaults["dtype"] in ("bool", "uint8"):', "R06.8", "_find_domain_astype")
+silent("c06-s-astype-bool-tuple", "C06", DOMAINS,
+       '    elif op.defaults["dtype"] in ("bool"):', '    elif op.defaults["dtype"] in ("bool", "bool_"):')
+fire("c06-getitem-number-kernel-ignores-op", "C06", TENSOR,
+     "    offset = op.defaults[\"offset\"]\n    index = [slice(None)] * (len(lhs.inputs) + offset)\n    index.append(rhs.data)",
+     "    index = [slice(None)] * len(lhs.inputs)\n    index.append(rhs.data)", "R06.7", "eager_getitem_tensor_number")
+fire("c06-distribute-subs-all", "C06", CNF, "            if any(name in v.inputs for name, sub in subs)", "            if all(name in v.inputs for name, sub in subs)", "R06.9", "distribute_subs_contraction")
+fire("c07-kwargs-appended-in-call-order", "C07", TERMS,
+     "            args = list(args)\n            for name in cls._ast_fields[len(args) :]:\n                args.append(kwargs.pop(name))\n            assert not kwargs, kwargs\n            args = tuple(args)",
+     "            args = tuple(args) + tuple(kwargs.values())", "R07.9", "FunsorMeta.__call__")
+fire("c07-kwargs-iterated-in-call-order", "C07", TERMS,
+     "            for name in cls._ast_fields[len(args) :]:\n                args.append(kwargs.pop(name))\n            assert not kwargs, kwargs",
+     "            for name in kwargs:\n                args.append(kwargs[name])", "R07.9", "FunsorMeta.__call__")
+silent("c07-s-kwargs-checked-as-set", "C07", TERMS,
+       "            assert not kwargs, kwargs\n", "            assert not set(kwargs), sorted(kwargs)\n")
+silent("c07-s-kwargs-by-comprehension-over-fields", "C07", TERMS,
+       "            args = list(args)\n            for name in cls._ast_fields[len(args) :]:\n                args.append(kwargs.pop(name))\n            assert not kwargs, kwargs\n            args = tuple(args)",
+       "            args = tuple(args) + tuple(kwargs[name] for name in cls._ast_fields[len(args) :])")
+fire("c07-wrapped-op-key-owner-only", "C07", OP,
+     "                args = id(fn.__self__), fn.__func__  # e.g. t.log_abs_det_jacobian", "                args = (id(fn.__self__),)", "R07.3", "WrappedOpMeta.hash_args_kwargs")
+silent("c07-s-wrapped-op-key-func-first", "C07", OP,
+       "                args = id(fn.__self__), fn.__func__  # e.g. t.log_abs_det_jacobian", "                args = fn.__func__, id(fn.__self__)")
+fire("c20-sample-cdf-in-aligned-logits", "C20", TENSOR,
+     "            logit_max = np.amax(flat_logits, -1, keepdims=True)\n            probs = np.exp(flat_logits - logit_max)\n            probs = probs / np.sum(probs, -1, keepdims=True)\n            s = np.cumsum(probs, -1)",
+     "            s = np.ascontiguousarray(flat_logits)\n            s -= np.amax(s, -1, keepdims=True)\n            np.exp(s, out=s)\n            s /= np.sum(s, -1, keepdims=True)\n            np.cumsum(s, -1, out=s)",
+     None, "Tensor._sample")
+silent("c20-s-sample-cdf-in-copy", "C20", TENSOR,
+       "            logit_max = np.amax(flat_logits, -1, keepdims=True)\n            probs = np.exp(flat_logits - logit_max)\n            probs = probs / np.sum(probs, -1, keepdims=True)\n            s = np.cumsum(probs, -1)",
+       "            s = np.array(flat_logits, copy=True)\n            s -= np.amax(s, -1, keepdims=True)\n            np.exp(s, out=s)\n            s /= np.sum(s, -1, keepdims=True)\n            np.cumsum(s, -1, out=s)")
+
 # ===== derived variants: must stay at the END of this file (they enumerate every rename() variant above) =====
 # `if c: A else: B` -> `if not c: B else: A` in the anchor functions (behaviour-preserving)
 def invert(prop, file, qual):
